@@ -63,7 +63,7 @@ def run_tlc(module, cfg, workers=16, simulate=None, depth=None, seed=None, timeo
         cfgp = os.path.join(work, module + ".cfg")
         with open(cfgp, "w") as f:
             f.write(cfg)
-        cmd = ["java", "-XX:+UseParallelGC", "-Xmx24g"]
+        cmd = ["java", "-XX:+UseParallelGC", "-Xmx" + os.environ.get("VERIF_TLC_XMX", "24g")]
         if deque:
             cmd.append("-Dtlc2.tool.queue.IStateQueue=StateDeque")
         cmd += ["-cp", TLA_JAR + ":" + CM_JAR, "tlc2.TLC", "-workers", str(workers),
